@@ -63,6 +63,46 @@ class Tape:
             return f
         return a
 
+    # --- primitives the modelled code does NOT use (PyRandom.v has three): a rewrite of d42 that switches to
+    # one of them is answered with the extreme outcomes in turn - "every outcome of the random draws" covers them
+    # too - and recorded in `foreign`, so that the run can be told apart from a modelled one
+    _UNIT = (0.0, 1.0 - 2.0 ** -53, 0.5, 2.0 ** -53, 0.75)
+
+    def _foreign(self, kind):
+        if not hasattr(self, "foreign"):
+            self.foreign = []
+        self.foreign.append(kind)
+        return len(self.foreign) - 1
+
+    def random(self):
+        return self._UNIT[self._foreign("random") % len(self._UNIT)]
+
+    def randrange(self, start, stop=None, step=1):
+        if stop is None:
+            start, stop = 0, start
+        n = len(range(start, stop, step))
+        if n <= 0:
+            raise ValueError("empty range for randrange()")
+        k = self._foreign("randrange")
+        return range(start, stop, step)[(0, n - 1, n // 2)[k % 3]]
+
+    def getrandbits(self, k):
+        i = self._foreign("getrandbits")
+        return (0, (1 << k) - 1, 1 << (k - 1) if k else 0)[i % 3]
+
+    def sample(self, population, k, **kw):
+        i = self._foreign("sample")
+        seq = list(population)
+        return (seq[:k], seq[::-1][:k], seq[len(seq) // 2:] + seq[:len(seq) // 2])[i % 3][:k]
+
+    def choices(self, population, weights=None, *, cum_weights=None, k=1):
+        i = self._foreign("choices")
+        seq = list(population)
+        return [seq[(0, len(seq) - 1, len(seq) // 2)[(i + j) % 3]] for j in range(k)]
+
+    def triangular(self, low=0.0, high=1.0, mode=None):
+        return (low, high, (low + high) / 2)[self._foreign("triangular") % 3]
+
     def seed(self, *a, **k):
         return None
 
@@ -119,12 +159,18 @@ class Policy(Tape):
 @contextlib.contextmanager
 def scripted(t):
     saved = (_random.randint, _random.choice, _random.uniform, _random.seed, _random.shuffle)
+    names = ("random", "randrange", "getrandbits", "sample", "choices", "triangular") if getattr(t, "script_foreign", True) else ()
+    saved_foreign = [getattr(_random, nm) for nm in names]
     _random.randint, _random.choice, _random.uniform = t.randint, t.choice, t.uniform
     _random.seed, _random.shuffle = t.seed, t.shuffle
+    for nm in names:
+        setattr(_random, nm, getattr(t, nm))
     try:
         yield t
     finally:
         (_random.randint, _random.choice, _random.uniform, _random.seed, _random.shuffle) = saved
+        for nm, f in zip(names, saved_foreign):
+            setattr(_random, nm, f)
 
 
 def ctape(entries):
